@@ -108,11 +108,19 @@ def parseTree (ts : List String) : Option Node :=
 
 inductive Ty where
   | num (w : WTy) (lo hi : Int)   -- effective bounds: refinement, else the natural ones
+  | snum (bits : Nat) (lo hi : Int)  -- signed base.i8 … base.i64 (only + - * comparisons are modelled)
   | bool
   | arr (n : Nat) (elem : Ty)
   | ideal
   | other (s : String)
   deriving Inhabited, Repr
+
+def signedBitsOfName (s : String) : Option Nat :=
+  if s == "base.i8" then some 8
+  else if s == "base.i16" then some 16
+  else if s == "base.i32" then some 32
+  else if s == "base.i64" then some 64
+  else none
 
 def wtyOfName (s : String) : Option WTy :=
   if s == "base.u8" then some .u8
@@ -135,7 +143,13 @@ def parseTyParts (fuel : Nat) (ps : List String) : Ty :=
           let l := (lo.toInt?).getD 0
           let h := (hi.toInt?).getD w.max
           .num w l h
-        | none => .other name
+        | none =>
+          match signedBitsOfName name with
+          | some b =>
+            let l := (lo.toInt?).getD (-(2 ^ (b - 1)))
+            let h := (hi.toInt?).getD (2 ^ (b - 1) - 1)
+            .snum b l h
+          | none => .other name
     | "A" :: len :: rest =>
       match len.toNat? with
       | some n => .arr n (parseTyParts fuel rest)
@@ -164,6 +178,7 @@ def Ty.zero : Ty → Val
 /-- is `v` a value of the (possibly refined) type -/
 def Ty.hasInt : Ty → Int → Bool
   | .num _ lo hi, v => decide (lo ≤ v) && decide (v ≤ hi)
+  | .snum _ lo hi, v => decide (lo ≤ v) && decide (v ≤ hi)
   | .bool, v => v == 0 || v == 1
   | .ideal, _ => true
   | _, _ => false
@@ -293,7 +308,14 @@ def applyOp (op : WOp) (nty : Ty) (a b : Int) : R Int :=
     match nty.wty? with
     | none =>
       -- comparison of two bools (`==`, `<>`) or ideal constants: no range involved
-      if op.isComparison then pure (op.ideal .u64 a b) else unsupported "operator-type"
+      if op.isComparison then pure (op.ideal .u64 a b)
+      else
+        match nty, op with
+        -- signed types: ideal arithmetic; the node's range is checked by the caller
+        | .snum _ _ _, .add => pure (a + b)
+        | .snum _ _ _, .sub => pure (a - b)
+        | .snum _ _ _, .mul => pure (a * b)
+        | _, _ => unsupported "operator-type"
     | some w =>
       match wmeaning op w a b with
       | some r => pure r
